@@ -10,10 +10,33 @@ OUTSIDE = ["lengths > 3", "index edits whose sub-request changes the carry of la
 
 def obligations(tier, seed):
     cat = PG.catalogue()
-    names = ["scan(walk)", "scan(kern2)", "static(scan)"] + (["vmap(scan)", "scan(static(vmap))", "mask(scan)"] if tier == "thorough" else [])
+    names = ["scan(walk)", "scan(kern2)", "scan(kernX)", "static(scan)"] + (["vmap(scan)", "scan(static(vmap))", "mask(scan)"] if tier == "thorough" else [])
     obs = []
     for nm in names:
         obs += gfi.family("C12", nm, cat[nm](), tier)
+    # regenerate issued with CHANGED scan arguments (new initial carry and new scanned inputs): unselected sites keep their
+    # values and are re-scored under the new inputs; the trace == the documented loop on the new arguments
+    from genjax import Diff, Regenerate
+    from genjax import Selection as S
+    import jax
+    import jax.numpy as jnp
+    from verif.engine import Ob
+
+    for nm in ["scan(walk)", "scan(kern2)", "scan(kernX)"]:
+        P = cat[nm]()
+        A = gfi.base_assume(P, in_range=False)
+        args2 = jax.tree_util.tree_map(lambda x: x + 0.25 if jnp.issubdtype(jnp.asarray(x).dtype, jnp.floating) else x, P.args)
+        for sn, sel in [("none", S.none()), ("last-site", S.at[P.sites[-1].static_addr]), ("all", S.all())]:
+            def fr(key, key2, args, vals, args2, P=P, sel=sel):
+                tr, _ = P.gf.importance(key, P.chm(vals), args)
+                tr2, w, rd, bwd = Regenerate(sel).edit(key2, tr, Diff.unknown_change(args2))
+                lhs, rhs = gfi.full_view(P, tr2)
+                r_old = P.ref(args, vals)
+                r_new = P.ref(args2, gfi.trace_vals(P, tr2))
+                return lhs + [w, tr2.get_args()], rhs + [r_new.score - r_old.score, args2]
+
+            obs.append(Ob(f"C12/regenerate[{sn}]+args=ref/{nm}", fr, (gfi.KEY, jax.random.key(1), P.args, P.example_vals(), args2), assume=lambda k, k2, a, v, a2, A=A: A(a, v) + A(a2),
+                          note="Regenerate on a scan with a changed initial carry and changed scanned inputs: trace == loop on the new arguments at its own values, weight == score change"))
     dc = PG.derived_catalogue()
     for nm in ["accumulate(accf)", "reduce(accf)", "iterate(step)", "iterate_final(step)", "iterate_final(stepdet)"]:
         ops = ("assess", "simulate", "importance", "update") if tier == "thorough" else ("assess", "simulate", "update")
